@@ -1,6 +1,6 @@
 """C05 — selective acknowledgements tell the truth about what was received."""
 import os
-import vlib
+import vlib, simcommon
 
 PROP = "C05"
 PROPS_FILE = "props/C05.v"
@@ -13,8 +13,8 @@ TRUSTED_BASE = [
     "against both the bit-level specification (theorems) and a word-level transcription (gap_blocks_w)",
 ]
 ASSUMPTIONS = [
-    "SACK construction around the queue (association.go:4091) is covered by the simulated-run checks when built; "
-    "this check decides the queue-level statements",
+    "association level: every SACK emitted in simulated runs is re-derived (cumulative TSN, gap blocks) by the model from the emitter's "
+    "receive-queue state, and the wire monitor checks it against the TSNs actually delivered to that endpoint",
 ]
 
 
@@ -22,11 +22,14 @@ def correspondence(ctx):
     corpus = os.path.join(vlib.VERIF, "corpus/rpq.ops")
     vlib.differential(ctx, "rpq-differential", "TestVerifRPQ", "rpq",
                       {"VERIF_N": ctx.scale(250, 6000), "VERIF_OPS": ctx.scale(120, 200), "VERIF_CORPUS": corpus})
+    vlib.differential(ctx, "sacks-on-the-simulated-wire", "TestVerifSimSack", "rpq",
+                      {"VERIF_N": ctx.scale(40, 1200), "VERIF_EVENTS": 250}, timeout=3000)
     vlib.monitor(ctx, "rpq-offset-sweep", "TestVerifRPQShift",
                  {"VERIF_N": ctx.scale(60, 600), "VERIF_BASES": ctx.scale(12, 64)},
                  fail_prefixes=("SHIFTDIFF",),
                  classify=lambda l: "rpq-ring-alias-wrap" if "words_divides_2p26=0" in l else "rpq-shift-other",
                  summary_prefix="RPQSHIFT")
+    simcommon.wire_sack_monitor(ctx)
     vlib.monitor(ctx, "rpq-sack-truth", "TestVerifRPQTruth", {"VERIF_N": ctx.scale(300, 6000)},
                  fail_prefixes=("SACKLIE",), classify=lambda l: "sack-lie", summary_prefix="RPQTRUTH")
 
